@@ -182,10 +182,7 @@ def run_check(pid, tier, seed, replay=None, write_evidence=True):
         viol = []
         known_hit = {}
         drift = 0
-        for c in ctl:
-            if not [f for f in verdicts.get(c["id"], []) if not f.startswith("DRIFT:")]:
-                rc = max(rc, 2)
-                lines.append("MACHINERY: negative control accepted (corruption %s of event %s)" % (c.get("corruption"), c["negctl_of"]))
+        ctl_accepted = [c for c in ctl if not [f for f in verdicts.get(c["id"], []) if not f.startswith("DRIFT:")]]
         for eid, failed in verdicts.items():
             if eid < 0:
                 continue
@@ -226,6 +223,15 @@ def run_check(pid, tier, seed, replay=None, write_evidence=True):
                 json.dump({"property": pid, "hashseed": ev.get("hashseed", 0), "case": ev.get("case"), "failed": cls,
                            "event": ev}, f, indent=1)
             lines.append("VIOLATION property=%s replay=%s clauses=%s" % (pid, path, ",".join(cls)[:300]))
+        # negative controls are corrupted copies of REAL events: they are meaningful only when the real events themselves
+        # satisfy the relation.  With violations present the verdict is "violation" (exit 1); an accepted control on an
+        # otherwise clean run means the judge is too weak: machinery failure (exit 2).
+        for c in ctl_accepted:
+            if viol:
+                lines.append("NOTE: negative control accepted while the run has violations (corruption %s of event %s)" % (c.get("corruption"), c["negctl_of"]))
+            else:
+                rc = max(rc, 2)
+                lines.append("MACHINERY: negative control accepted (corruption %s of event %s)" % (c.get("corruption"), c["negctl_of"]))
         if viol:
             rc = max(rc, 1) if rc != 2 else 2
             if len(viol) > shown:
